@@ -110,7 +110,7 @@ func purityDigests(it *purityItem, content []byte) (full, masked string) {
 		if err != nil {
 			return "error", "error"
 		}
-		d := digest(cStatic(s) + strings.Join(dumpStatic(s), "\n"))
+		d := digest(staticProjection(s))
 		return d, d
 	}
 }
@@ -373,7 +373,7 @@ func enginePurity(ctx *engineCtx) {
 				stats["static_error"]++
 				continue
 			}
-			proj := cStatic(base.s) + "\n" + strings.Join(dumpStatic(base.s), "\n")
+			proj := staticProjection(base.s)
 			for q := 0; q < repeats; q++ {
 				s2, e2, cr2 := parseStaticGuarded(zb, gtfs.ParseStaticOptions{InheritWheelchairBoarding: inherit})
 				ctx.evaluations++
@@ -381,7 +381,7 @@ func enginePurity(ctx *engineCtx) {
 					ctx.violate("c06-repeat-static", fmt.Sprint("a repeated ParseStatic of the same bytes fails: ", e2, cr2.msg), replay)
 					break
 				}
-				if p2 := cStatic(s2) + "\n" + strings.Join(dumpStatic(s2), "\n"); p2 != proj {
+				if p2 := staticProjection(s2); p2 != proj {
 					ctx.violate("c06-repeat-static", "two ParseStatic calls on the same bytes differ (content or order): "+firstDiff(p2, proj), replay)
 					break
 				}
@@ -424,7 +424,7 @@ func enginePurity(ctx *engineCtx) {
 			ctx.violate("c06-static-history", fmt.Sprint("ParseStatic fails after other feeds were parsed: ", e2, cr2.msg), map[string]any{"members": k.desc})
 			continue
 		}
-		if p2 := cStatic(s2) + "\n" + strings.Join(dumpStatic(s2), "\n"); p2 != k.proj {
+		if p2 := staticProjection(s2); p2 != k.proj {
 			ctx.violate("c06-static-history", "ParseStatic of the same bytes differs after other feeds were parsed: "+firstDiff(p2, k.proj), map[string]any{"members": k.desc, "inherit": k.inherit})
 		}
 	}
@@ -531,3 +531,6 @@ func describeHistoryRT(msgs [][]byte) []string {
 	}
 	return out
 }
+
+// the one projection of a static result used for every comparison of this engine (in-process and across processes)
+func staticProjection(s *gtfs.Static) string { return cStatic(s) + "\n" + strings.Join(dumpStatic(s), "\n") }
